@@ -6,13 +6,13 @@ NOTE = ("_ical_push/_ical_pull/esccpy executed symbolically on N fully symbolic 
 ASSUMPTIONS = ["_ical_proc depends only on (parser state, completed line): it is replaced by an injective line recorder at its call sites",
                "inputs of N bytes, two chunks; longer inputs and three or more chunks are outside the claim"]
 def ob(n, split, **kw):
-    o = dict(name='n%d_split%d' % (n, split), src='h_pull.c', defs=['N=%d' % n, 'SPLIT=%d' % split], units=[],
+    o = dict(name='n%d_split%d' % (n, split), src='h_pull.c', defs=['N=%d' % n, 'SPLIT=%d' % split, 'ECHSE_VERIF_STASH=16U'], units=[],
              incl=['src/evical.c'], replay_units='all', unwind=n + 3, unwindset={'memchr.*': n + 2, 'esccpy.*': n + 2, 'harness.0': 1026},
              solver='cadical', timeout=900, mem_gb=12, checks=['--bounds-check', '--pointer-check'],
              replace_calls={'_ical_proc': 'rec_proc'}, excludes=['C10-1', 'C10-2', 'C10-3', 'C10-4'],
              enc=['_ical_push', '_ical_pull', 'esccpy'], sym='all %d input bytes' % n, bounds='%d bytes, split after byte %d vs one chunk' % (n, split),
              outside='inputs longer than %d bytes; more than two chunks; the component state machine itself' % n,
-             stubs=['_ical_proc replaced by the line recorder rec_proc (goto-instrument --replace-calls)', 'reference memchr (CBMC has no model)'])
+             stubs=['_ical_proc replaced by the line recorder rec_proc (goto-instrument --replace-calls)', 'reference memchr (CBMC has no model)', 'hook ECHSE_VERIF_STASH=16 (line stash of 16 instead of 1024 bytes)'])
     o.update(kw)
     return o
 OBLIGATIONS = [ob(3, 1), ob(3, 2), ob(4, 1), ob(4, 2), ob(4, 3)] + \
